@@ -111,7 +111,7 @@ def _run_one(args) -> Dict[str, Any]:
 
 
 def run_mutants(mod, pid: str, overlay: Overlay, seed: int = 0, jobs: int = 0) -> Dict[str, Any]:
-    mutants: List[Mutant] = list(getattr(mod, 'MUTANTS', []))
+    mutants: List[Mutant] = list(getattr(mod, 'MUTANTS', [])) + corpus_mutants(pid)
     if not mutants:
         return {'mutants': 0, 'note': 'no mutants registered for this property'}
     base = Ctx(pid, overlay, 'quick', seed)
@@ -217,3 +217,116 @@ def simple_statement(t: str) -> bool:
                                              'def ', 'class ', 'return', '@', '"""', "'''", 'global ', 'nonlocal ', 'assert ')):
         return False
     return not t.endswith(':')
+
+
+# ---------------------------------------------------------------------------------------------
+# corpus mutants: the confirmed seeded changes and behaviour-preserving refactorings kept under /verif/seeded are re-applied IN MEMORY
+# (unified diff applied to the overlay's file texts; /repo is never touched) on every thorough run
+# ---------------------------------------------------------------------------------------------
+def apply_unified_diff(files: Dict[str, str], diff_text: str) -> Dict[str, str]:
+    """Apply a git unified diff to {path: text}.  Hunks are located at their stated line, or else at the nearest position where the
+    before-text matches exactly; a hunk whose before-text is not found raises MutantNotApplicable."""
+    out = dict(files)
+    cur: Optional[str] = None
+    hunks: Dict[str, List[Tuple[int, List[str], List[str]]]] = {}
+    lines = diff_text.split('\n')
+    i = 0
+    while i < len(lines):
+        l = lines[i]
+        if l.startswith('+++ '):
+            tgt = l[4:].strip()
+            cur = tgt[2:] if tgt.startswith('b/') else tgt
+            hunks.setdefault(cur, [])
+            i += 1
+            continue
+        m = re.match(r'@@ -(\d+)(?:,(\d+))? \+(\d+)(?:,(\d+))? @@', l)
+        if m and cur is not None:
+            start = int(m.group(1))
+            old: List[str] = []
+            new: List[str] = []
+            i += 1
+            while i < len(lines) and not lines[i].startswith(('@@ ', 'diff --git', '--- a/', '--- /dev/null')):
+                h = lines[i]
+                if h.startswith('\\'):
+                    pass
+                elif h.startswith('-'):
+                    old.append(h[1:])
+                elif h.startswith('+'):
+                    new.append(h[1:])
+                elif h.startswith(' ') or h == '':
+                    if h == '' and i == len(lines) - 1:
+                        break
+                    old.append(h[1:])
+                    new.append(h[1:])
+                i += 1
+            hunks[cur].append((start, old, new))
+            continue
+        i += 1
+    for path, hs in hunks.items():
+        if path == '/dev/null':
+            continue
+        text = out.get(path, '')
+        flines = text.split('\n')
+        offset = 0
+        for start, old, new in hs:
+            at = start - 1 + offset if old else max(start + offset, 0)
+            cands = sorted(range(0, len(flines) - len(old) + 1), key=lambda k: abs(k - at))
+            pos = next((k for k in cands if flines[k:k + len(old)] == old), None) if old else min(at, len(flines))
+            if pos is None:
+                # trailing context of the last hunk may run past the end of the file
+                raise MutantNotApplicable('hunk at %s:%d does not apply to the current tree' % (path, start))
+            flines[pos:pos + len(old)] = new
+            offset += len(new) - len(old)
+        out[path] = '\n'.join(flines)
+    return out
+
+
+class PatchMutant(Mutant):
+    """A whole-patch mutant: the unified diff at `patch` (a file under /verif/seeded) applied to the overlay in memory."""
+
+    def __init__(self, name: str, patch: str, expect: Optional[str], benign: bool = False, note: str = ''):
+        super().__init__(name, patch, name, [], expect, benign, note)
+        self.patch = patch
+
+    def apply(self, overlay: Overlay) -> Overlay:
+        with open(self.patch, encoding='utf-8') as fh:
+            diff = fh.read()
+        files = apply_unified_diff(overlay.files, diff)
+        changed = [p for p in files if files[p] != overlay.files.get(p)]
+        if not changed:
+            raise MutantNotApplicable('patch leaves the tree unchanged')
+        for p in changed:
+            try:
+                import ast as _ast
+                _ast.parse(files[p])
+            except SyntaxError as e:
+                raise MutantNotApplicable('patched %s does not parse: %s' % (p, e))
+        return Overlay(files, overlay.root, 'corpus:' + self.name)
+
+
+def corpus_mutants(pid: str, verif_root: Optional[str] = None) -> List[Mutant]:
+    """The seeded changes recorded as caught by `pid` (must still be reported) and the refactorings of `pid` not recorded as refused
+    (must stay silent), from the committed corpus."""
+    import json
+    root = verif_root or os.path.dirname(os.path.dirname(os.path.abspath(__file__)))
+    sd = os.path.join(root, 'seeded')
+    out: List[Mutant] = []
+    if not os.path.isdir(sd):
+        return out
+    for d in sorted(os.listdir(sd)):
+        mp, pp = os.path.join(sd, d, 'meta.json'), os.path.join(sd, d, 'patch.diff')
+        if not (os.path.isfile(mp) and os.path.isfile(pp)):
+            continue
+        meta = json.load(open(mp))
+        if pid in meta.get('caught_by', []):
+            out.append(PatchMutant('seed:' + d, pp, expect=''))
+    rd = os.path.join(sd, 'refactor')
+    if os.path.isdir(rd):
+        for d in sorted(os.listdir(rd)):
+            mp, pp = os.path.join(rd, d, 'meta.json'), os.path.join(rd, d, 'patch.diff')
+            if not (os.path.isfile(mp) and os.path.isfile(pp)):
+                continue
+            meta = json.load(open(mp))
+            if meta.get('property') == pid and pid not in meta.get('refused_by', []) and not meta.get('false_alarms'):
+                out.append(PatchMutant('refactor:' + d, pp, expect=None, benign=True))
+    return out
